@@ -222,10 +222,10 @@ class Namespace(argparse.Namespace):
         for key, val in vars(self).items():
             if isinstance(val, Namespace):
                 val = val.as_dict()
-            elif isinstance(val, dict) and val != {} and all(isinstance(v, Namespace) for v in val.values()):
-                val = {k: v.as_dict() for k, v in val.items()}
-            elif isinstance(val, list) and val != [] and all(isinstance(v, Namespace) for v in val):
-                val = [v.as_dict() for v in val]
+            elif isinstance(val, dict) and any(isinstance(v, Namespace) for v in val.values()):
+                val = {k: v.as_dict() if isinstance(v, Namespace) else v for k, v in val.items()}
+            elif isinstance(val, list) and any(isinstance(v, Namespace) for v in val):
+                val = [v.as_dict() if isinstance(v, Namespace) else v for v in val]
             dic[del_clash_mark(key)] = val
         return dic
 
